@@ -20,7 +20,8 @@ MOD = "debian._deb822_repro.tokens"
 
 ATOMS = ["\n", " \n", "\t \n", "#c\n", "# \n", " x\n", "\tx y\n", " #n\n", "A: b\n", "A:\n", "A:b\n", "A:  b  \n", "a: c\n",
          "garbage\n", ": x\n", "A b\n", "Ä: ü\n", "A: b\u00a0c\n", "A: b\x0cc\n", "A: b\rc\n", "A: \u2028\n", " \u00a0\n", "\x0c\n",
-         "A:: :\n", "-A: x\n", "#\n", "A: b\x0c\n", "A: b \u00a0\n", " x\x1f\n"]
+         "A:: :\n", "-A: x\n", "#\n", "A: b\x0c\n", "A: b \u00a0\n", " x\x1f\n",
+         "X\x7fY: v\n", "\x80\u00ff\u2028: v\n"]
 
 
 def check_lines(real_parse, real_tok, lines, t, mode):
